@@ -83,6 +83,12 @@ def closure_profile(draw, nmin=2, nmax=8, closures=CLOSURES):
 @st.composite
 def _zgrid(draw, nzmin=3, nzmax=12):
     nz = draw(st.integers(nzmin, nzmax))
+    if draw(st.integers(0, 7)) == 0:
+        # heights in whole metres, passed as an integer array (JSON keeps ints as ints)
+        z = [draw(st.integers(1, 2))]
+        for _ in range(nz - 1):
+            z.append(z[-1] + draw(st.integers(1, 3)))
+        return z
     z0 = draw(logfl(0.01, 1.0))
     H = draw(logfl(1.0, 30.0))
     w = draw(st.lists(fl(0.2, 3.0), min_size=nz - 1, max_size=nz - 1))
@@ -149,7 +155,9 @@ def build_profiles(p):
         z = np.asarray(z, float).ravel()
         prof = tuple(np.asarray(a, float).ravel() for a in prof)
         return z, prof
-    z = np.asarray(p["z"], float)
+    z = np.asarray(p["z"])
+    if z.dtype.kind != "i":  # integer-typed grids stay integer-typed: the solver must cope with whole-metre heights
+        z = z.astype(float)
     if p["kind"] == "free":
         return z, tuple(np.asarray(p[k], float) for k in ("u", "v", "Kx", "Ky", "Kz"))
     if p["kind"] == "const":
